@@ -9,9 +9,13 @@ def to_number(number):
             return int(number)
         except ValueError:
             try:
-                return float(number)
+                value = float(number)
             except ValueError:
                 pass
+            else:
+                # "inf", "infinity" and "nan" are words, not spellings of a number
+                if value == value and value not in (float('inf'), float('-inf')):
+                    return value
     if isinstance(number, bool):
         return 1 if number else 0
     return number
